@@ -21,11 +21,11 @@ CONFIG = {
     ],
     "mult_search": 3,
     "refuted": [],
-    "partial": [],
+    "partial": ["C01_codec_roundtrip is conditional on 'encode = Ok txt' (C01_full_statement also asserts that encoding a representable message succeeds; checked by the direct oracle on every generated message, not yet proved); protobuf Any values are outside rep_value (they decode only with WithProtoToAny)"],
 }
 
 MANIFEST = {
-    "text": "Theorems over Gallina models of the J5 JSON encoder and decoder: for every scalar kind and every value of its documented domain the printed token is read back by the matching arm of scalarReflectFromGo to the same value (integers over Z with the int32/int64/uint32/uint64 ranges, strings through appendString and the strict JSON reader, bytes through padded std base64 and the lenient decoder, timestamps through RFC3339Nano formatting and the RFC 3339 fast path for all instants of years 0001-9999 — proleptic Gregorian calendar round trip proved for every day —, dates through %04d-%02d-%02d and DateFromString, decimals to their normalised text). Tied to the code by re-reading the Go switch tables and by a round-trip correspondence stream (real encode, real decode, both models) on generated messages of fixed and dynamically built descriptors; a direct round-trip oracle compares decode(encode m) with m on the real code.",
+    "text": "Theorems over Gallina models of the J5 JSON encoder and decoder. Structural round trip (C01_codec_roundtrip), for all schema environments and all representable messages: if encode m = Ok txt then txt parses (strict RFC 8259 reader) to a tree J, and decoding J into a fresh message (decodeObjectInner / decodeOneofInner / decodeValue arms / decodeAny / CreateField with its already-set and oneof-conflict guards / protoreflect Set-Mutable-Append through the presence algebra, flattened paths and exposed oneofs included) succeeds within the decoder's nesting bound and yields a message equal to m property by property (decimals as normalised text, Any as type + JSON payload, empty flattened sub-message = absent, maps in encoder order); proved by strong induction on encoder fuel with a message/path algebra and a loop invariant over the leaf properties. Scalar layer: for every scalar kind and every value of its documented domain the printed token is read back by the matching arm of scalarReflectFromGo to the same value (integers over Z with the int32/int64/uint32/uint64 ranges, strings through appendString and the strict JSON reader, bytes through padded std base64 and the lenient decoder, timestamps through RFC3339Nano formatting and the RFC 3339 fast path for all instants of years 0001-9999 — proleptic Gregorian calendar round trip proved for every day —, dates through %04d-%02d-%02d and DateFromString, decimals to their normalised text). Tied to the code by re-reading the Go switch tables and by a round-trip correspondence stream (real encode, real decode, both models) on generated messages of fixed and dynamically built descriptors; a direct round-trip oracle compares decode(encode m) with m on the real code.",
     "note": "The float law of strconv and 'time.Parse extends its RFC 3339 fast path' are explicit premises (exercised every run). protobuf Any values with a proto payload decode only with the WithProtoToAny option (the oracle uses it for such messages). Message nesting beyond 10000 property levels encodes but is refused by the decoder (documented bound).",
     "technique": "Rocq/Coq proof (radix and calendar round trips, the latter by exhaustive evaluation of one 400-year era lifted to all days; print/parse inverses) + in-Coq differential correspondence of encoder and decoder models against the real codec + direct round-trip oracle",
 }
